@@ -111,6 +111,10 @@ pub fn lift_type(reg: &LiftRegistry, ty: &syn::Type, self_ty: Option<&str>) -> R
             let e = lift_type(reg, &a.elem, self_ty)?;
             if e == "real" {
                 Ok("RArr".into())
+            } else if let syn::Expr::Lit(syn::ExprLit { lit: syn::Lit::Int(n), .. }) = &a.len {
+                // a fixed-size array of records is a tuple
+                let n: usize = n.base10_parse().map_err(|_| "array length".to_string())?;
+                Ok(format!("({})", vec![e; n].join(", ")))
             } else {
                 unsupported("array type", ty)
             }
@@ -197,6 +201,8 @@ struct Lifter<'a> {
     /// the `&mut` parameter returned by a `()` function, if any
     out_param: Option<String>,
     observe: Option<String>,
+    /// L17c: number of lifted calls per callee so far (evaluation order)
+    calls_seen: HashMap<String, usize>,
     /// observables shared with the main function: binding name -> opaque spec fn to call instead of inlining
     shared: HashMap<String, String>,
     rebound_params: Vec<String>,
@@ -436,6 +442,15 @@ impl<'a> Lifter<'a> {
                 if let Some((full, ty, _)) = self.reg.variants.get(&s) {
                     return Ok(v(full.clone(), ty));
                 }
+                // L21: a module constant (SCREAMING_CASE, single segment) is an uninterpreted real constant
+                if p.path.segments.len() == 1 && s.len() > 1 && s.chars().all(|c| c.is_ascii_uppercase() || c.is_ascii_digit() || c == '_') {
+                    let decl = format!("pub uninterp spec fn K_{s}() -> real;");
+                    if !self.havocs.contains(&decl) {
+                        self.havocs.push(decl);
+                    }
+                    self.note("L21", e.span(), &format!("module constant `{s}` lifted to an uninterpreted real constant"));
+                    return Ok(v(format!("K_{s}()"), "real"));
+                }
                 Err(format!("construct outside rule list (lift): unknown name `{s}`"))
             }
             Expr::Unary(u) => {
@@ -595,8 +610,17 @@ impl<'a> Lifter<'a> {
             Expr::Array(a) => {
                 // [e0, e1, ..] -> index function over a fixed length
                 let mut vals = Vec::new();
+                let mut all: Vec<Val> = Vec::new();
                 for x in &a.elems {
-                    let t = self.expr(x)?;
+                    all.push(self.expr(x)?);
+                }
+                if !all.is_empty() && all.iter().all(|t| t.ty != "real" && t.ty != "int") {
+                    // a fixed-size array of records is a tuple
+                    let tys: Vec<String> = all.iter().map(|t| t.ty.clone()).collect();
+                    let txt: Vec<String> = all.iter().map(|t| t.text.clone()).collect();
+                    return Ok(v(format!("({})", txt.join(", ")), &format!("({})", tys.join(", "))));
+                }
+                for t in all {
                     if t.ty != "real" {
                         return unsupported("array literal of non-real elements", e);
                     }
@@ -637,8 +661,11 @@ impl<'a> Lifter<'a> {
             syn::Pat::Ident(i) => {
                 // a bare identifier could be a glob-imported unit variant; treat lower-case as binding
                 let n = i.ident.to_string();
-                if let Some((full, _, _)) = self.reg.variants.get(&n) {
-                    return Ok(full.clone());
+                if let Some((full, vty, _)) = self.reg.variants.get(&n) {
+                    // `None` / `Some` of an Option scrutinee are not the like-named variants of a lifted enum
+                    if !(ty.starts_with("Option<") && (n == "None" || n == "Some")) || vty.starts_with("Option") {
+                        return Ok(full.clone());
+                    }
                 }
                 if n.chars().next().map(|c| c.is_uppercase()).unwrap_or(false) {
                     return Ok(n);
@@ -1041,6 +1068,10 @@ impl<'a> Lifter<'a> {
             Expr::Binary(b) if matches!(b.op, syn::BinOp::AddAssign(_) | syn::BinOp::SubAssign(_) | syn::BinOp::MulAssign(_) | syn::BinOp::DivAssign(_)) => {
                 let name = match &*b.left {
                     Expr::Path(p) if p.path.get_ident().is_some() => p.path.get_ident().unwrap().to_string(),
+                    Expr::Unary(u) if matches!(u.op, syn::UnOp::Deref(_)) => match &*u.expr {
+                        Expr::Path(p) if p.path.get_ident().is_some() => p.path.get_ident().unwrap().to_string(),
+                        _ => return unsupported("compound assignment target", e),
+                    },
                     _ => return unsupported("compound assignment target", e),
                 };
                 let l = self.expr(&b.left)?;
@@ -1368,10 +1399,23 @@ impl<'a> Lifter<'a> {
             if let Some(obs) = self.observe.clone() {
                 if let Some(rest) = obs.strip_prefix('@') {
                     if let Some((fname, k)) = rest.split_once('.') {
+                        // `@f#n.k`: the n-th call of `f` in evaluation order (default: the first)
+                        let (fname, occ) = match fname.split_once('#') {
+                            Some((a, n)) => (a, n.parse::<usize>().map_err(|_| format!("bad observable `{obs}`"))?),
+                            None => (fname, 0),
+                        };
+                        let seen = *self.calls_seen.get(&key).unwrap_or(&0);
                         if fname == key {
+                            self.calls_seen.insert(key.clone(), seen + 1);
+                        }
+                        if fname == key && seen == occ {
                             let k: usize = k.parse().map_err(|_| format!("bad observable `{obs}`"))?;
                             if k < args.len() {
-                                self.hoist.last_mut().unwrap().push(("@@capture".to_string(), args[k].clone()));
+                                let mut cap = args[k].clone();
+                                if cap.ty.contains('?') {
+                                    cap = v(format!("{}::<{}>", cap.text, ptys[k].trim_start_matches("Option<").trim_end_matches('>')), &ptys[k]);
+                                }
+                                self.hoist.last_mut().unwrap().push(("@@capture".to_string(), cap));
                             }
                         }
                     }
@@ -1505,6 +1549,7 @@ impl<'a> Lifter<'a> {
             ("recip", "real") => return Ok(v(format!("(1real / {})", recv.text), "real")),
             ("max", "int") if args.len() == 1 => return Ok(v(format!("imax({}, {})", recv.text, args[0].text), "int")),
             ("min", "int") if args.len() == 1 => return Ok(v(format!("imin({}, {})", recv.text, args[0].text), "int")),
+            ("clamp", "real") if args.len() == 2 => return Ok(v(format!("rmin(rmax({}, {}), {})", recv.text, args[0].text, args[1].text), "real")),
             ("max", "real") if args.len() == 1 => return Ok(v(format!("rmax({}, {})", recv.text, args[0].text), "real")),
             ("min", "real") if args.len() == 1 => return Ok(v(format!("rmin({}, {})", recv.text, args[0].text), "real")),
             ("is_sign_negative", "real") => return Ok(v(format!("({} < 0real)", recv.text), "bool")),
@@ -1818,7 +1863,7 @@ pub fn lift_fn(ctx: &mut Ctx, blk: &Block) -> Result<(String, Value), String> {
             };
             let is_bound = if let Some(rest) = o.strip_prefix('@') {
                 // the function calls `f`
-                let fname = rest.split('.').next().unwrap_or("").to_string();
+                let fname = rest.split('.').next().unwrap_or("").split('#').next().unwrap_or("").to_string();
                 struct C(String, bool);
                 impl<'ast> syn::visit::Visit<'ast> for C {
                     fn visit_expr_call(&mut self, c: &'ast syn::ExprCall) {
@@ -1837,7 +1882,7 @@ pub fn lift_fn(ctx: &mut Ctx, blk: &Block) -> Result<(String, Value), String> {
                 bound_names.iter().any(|b| b == o)
             };
             let oname_part = match o.strip_prefix('@') {
-                Some(rest) => rest.replace('.', "_arg"),
+                Some(rest) => rest.replace('.', "_arg").replace('#', "_call"),
                 None => o.to_string(),
             };
             if !is_bound {
@@ -1878,6 +1923,7 @@ pub fn lift_fn(ctx: &mut Ctx, blk: &Block) -> Result<(String, Value), String> {
             hoist: vec![],
             out_param: out_param.clone(),
             observe: observe.clone(),
+            calls_seen: HashMap::new(),
             shared: if blk.flag("share_observed") { outputs.iter().filter_map(|(n, o)| o.clone().map(|o| (o, n.clone()))).collect() } else { HashMap::new() },
             rebound_params: vec![],
             in_value: 0,
